@@ -68,6 +68,9 @@ func runHandleOps(ops []string) []string {
 			}
 		case "release":
 			h, _ := strconv.ParseUint(f[2], 10, 64)
+			if _, ok := absnfs.VerifGetPath(fm, h); ok {
+				aux[i].before = 1 // the value was live: Release puts it on the free list
+			}
 			fm.Release(h)
 			out[i] = "ok"
 		case "releaseall":
@@ -106,6 +109,8 @@ func handleOracle(r *Result, ops, impl []string, prop string) {
 	live := map[uint64]string{}   // reference: what must be live, from outputs only (updated from dumps)
 	issued := map[uint64]string{} // ghost: first path each id value was issued for
 	everFreed := map[uint64]bool{}
+	inFree := map[uint64]bool{} // shadow of the free list: values released or evicted since the last init / releaseall
+	holder := map[uint64]string{} // the path each value was handed out for most recently
 	var burst []struct {
 		h uint64
 		p string
@@ -122,6 +127,7 @@ func handleOracle(r *Result, ops, impl []string, prop string) {
 				maxH = 100000
 			}
 			live, issued, everFreed = map[uint64]string{}, map[uint64]string{}, map[uint64]bool{}
+			inFree, holder = map[uint64]bool{}, map[uint64]string{}
 		case "alloc":
 			p := string(unhx(f[2]))
 			h, _ := strconv.ParseUint(impl[i], 10, 64)
@@ -137,22 +143,36 @@ func handleOracle(r *Result, ops, impl []string, prop string) {
 					r.violate(Violation{Class: "C05/not-deduplicated", What: fmt.Sprintf("path %q already had live handle %d but Allocate returned %d", p, h0, h), Ops: prefix(i)})
 				}
 			}
+			fromFree := inFree[h]
 			for _, id := range aux[i].gone {
 				everFreed[id] = true // evicted inside this call (seen through the table, not through outputs)
+				if id == h {
+					fromFree = true // evicted and handed out again within this call
+				} else {
+					inFree[id] = true
+				}
 			}
+			delete(inFree, h)
 			if a := aux[i]; a.prev != "" && a.prev != p && a.before < maxH && prop == "C06" {
 				// no eviction can have happened inside this call (the table was below its limit), so the value
 				// handed out for p was, at that moment, the live handle of another path
 				r.violate(Violation{Class: "C06/live-handle-reissued", What: fmt.Sprintf("handle value %d was the live handle of %q (table at %d of %d) when Allocate returned it for %q", h, a.prev, a.before, maxH, p), Ops: prefix(i)})
-			} else if first, ok := issued[h]; ok && first != p && prop == "C06" {
+			} else if first, ok := issued[h]; ok && first != p && holder[h] != p && prop == "C06" {
+				// (a re-issue for the path that already holds the value is the dedup branch, not a new event)
 				// ids come either from the counter (always larger than every id issued before) or from the
 				// free list: a previously issued value coming back for another path is free-list reuse
 				cls := "C06/free-list-id-reuse"
+				if !fromFree {
+					// not popped from the free list (it was emptied by ReleaseAll, or never held this value): the
+					// counter itself handed out a value it had handed out before
+					cls = "C06/counter-reissued-value"
+				}
 				r.violate(Violation{Class: cls, What: fmt.Sprintf("handle value %d was issued for %q and is now issued for %q", h, first, p), Ops: prefix(i)})
 			}
 			if _, ok := issued[h]; !ok {
 				issued[h] = p
 			}
+			holder[h] = p
 			live[h] = p
 			burst = append(burst, struct {
 				h uint64
@@ -175,12 +195,16 @@ func handleOracle(r *Result, ops, impl []string, prop string) {
 			if _, ok := live[h]; ok {
 				everFreed[h] = true
 			}
+			if aux[i].before == 1 {
+				inFree[h] = true
+			}
 			delete(live, h)
 		case "releaseall":
 			for h := range live {
 				everFreed[h] = true
 			}
 			live = map[uint64]string{}
+			inFree = map[uint64]bool{} // ReleaseAll starts a new, empty free list
 		case "dump":
 			cur := map[uint64]string{}
 			if impl[i] != "" {
@@ -311,6 +335,7 @@ func checkHandles(r *Result, rng *rand.Rand, thorough bool, prop string) {
 func staleCheck(r *Result, rng *rand.Rand) {
 	fs := NewRefFS()
 	must(fs.Mkdir("/d", 0o755))
+	must(fs.Mkdir("/e", 0o755))
 	f, _ := fs.Create("/d/f")
 	f.Close()
 	s, err := newSrv(fs, absnfs.ExportOptions{})
@@ -376,16 +401,23 @@ func staleCheck(r *Result, rng *rand.Rand) {
 	check("after-unexport-dir", d)
 	check("after-unexport-root", root)
 	// re-export: new handles are issued; the old values must not come back for other objects
+	// (objects are looked up in another order than before, so that a numbering that starts over would hand
+	// the old values to other objects; Unexport empties the free list, so this is not free-list reuse)
 	root2, _ := s.Mount("/")
+	e2, _ := s.Lookup(root2, "e", rootCred())
 	d2, _ := s.Lookup(root2, "d", rootCred())
 	for _, old := range []struct {
 		h uint64
 		p string
 	}{{root, "/"}, {d, "/d"}, {fhd, "/d/f"}} {
 		if p, ok := absnfs.VerifHandlePath(s.NFS, old.h); ok && p != old.p {
-			r.violate(Violation{Class: "C06/free-list-id-reuse", What: fmt.Sprintf("after Unexport and re-mount handle %d (was %q) resolves to %q", old.h, old.p, p)})
+			r.violate(Violation{Class: "C06/ids-restart-after-releaseall", What: fmt.Sprintf("after Unexport and re-mount handle %d (was %q) resolves to %q", old.h, old.p, p)})
+			rep := s.NFSCall(1, rootCred(), fh(old.h))
+			if status(rep) != 70 {
+				r.violate(Violation{Class: "C06/stale-handle-served", What: fmt.Sprintf("the handle %d a client got for %q before Unexport is served (GETATTR status %d) against %q after re-export", old.h, old.p, status(rep), p)})
+			}
 		}
 	}
-	_ = d2
+	_, _ = d2, e2
 	_ = binary.BigEndian
 }
